@@ -572,6 +572,7 @@ def run_multi(case, log, stats):
 class AdtEngine(Engine):
     name = "adtsim"
     properties = ("C18",)
+    optimize_subpass = {"quick": 32000, "thorough": 400000}  # cases of the second pass under python -O
 
     def tiers(self, prop):
         return {
